@@ -38,9 +38,11 @@ def impl_run(args):
     from distributed_shampoo.utils.shampoo_fsdp_distributor import FSDPDistributor
     from distributed_shampoo.utils.shampoo_hsdp_distributor import HSDPDistributor
 
-    shape, ranges = args
+    shape, ranges = args[0], args[1]
+    meta = len(args) > 2 and args[2] == "meta"
     n = math.prod(shape)
-    base = torch.arange(n + 2, dtype=torch.float32)
+    # huge shapes (numel up to 2^44) run on the meta device: views, offsets and shapes are real, there is no storage to compare
+    base = torch.empty(n + 2, device="meta") if meta else torch.arange(n + 2, dtype=torch.float32)
     res = []
     for fn in (FSDPDistributor._split_tensor_block_recovery, HSDPDistributor._split_tensor_block_recovery):
         per = []
@@ -54,9 +56,12 @@ def impl_run(args):
             ok = True
             pieces = []
             for p in out:
-                ok = ok and p.untyped_storage().data_ptr() == base.untyped_storage().data_ptr() and p.is_contiguous()
                 o = p.storage_offset() - s
-                ok = ok and bool(torch.equal(p.reshape(-1), base[s + o: s + o + p.numel()]))
+                if meta:
+                    ok = ok and p.is_contiguous() and p.device.type == "meta"
+                else:
+                    ok = ok and p.untyped_storage().data_ptr() == base.untyped_storage().data_ptr() and p.is_contiguous()
+                    ok = ok and bool(torch.equal(p.reshape(-1), base[s + o: s + o + p.numel()]))
                 pieces.append((o, p.numel(), list(p.shape)))
             per.append((ok, pieces))
         res.append(per)
@@ -103,12 +108,28 @@ def run(ck: Check) -> None:
             e = ck.rng.randint(s, n)
         rnd.append((sh, [(s, e)]))
     work += rnd
+    # shapes with a zero-sized dimension (numel 0): the only range is the empty one
+    zero_shapes = [(0,), (0, 3), (3, 0), (2, 0, 2), (0, 0), (1, 0), (2, 3, 0, 2)]
+    work += [(sh, [(0, 0)]) for sh in zero_shapes]
+    # huge shapes on the meta device: numel between 2^31 and 2^44 (index arithmetic beyond int32 / float precision)
+    huge = []
+    for _ in range(1500 if thorough else 300):
+        order = ck.rng.randint(1, 5)
+        sh = tuple(ck.rng.choice((1, 2, 3, 7, 1 << 10, (1 << 10) + 1, 1 << 16, (1 << 20) - 1, 1 << 20)) for _ in range(order))
+        n = math.prod(sh)
+        if not (1 << 31) <= n <= (1 << 44):
+            continue
+        r = math.prod(sh[ck.rng.randint(0, order - 1) + 1:]) if order > 1 else 1
+        s = min(n, ck.rng.randint(0, n // r) * r + ck.rng.choice((0, 0, 1, r - 1, ck.rng.randint(0, r))))
+        e = min(n, max(s, ck.rng.randint(0, n // r) * r + ck.rng.choice((0, 0, 1, ck.rng.randint(0, r)))))
+        huge.append((sh, [(s, e)], "meta"))
+    work += huge
     with mp.get_context("fork").Pool(16) as pool:
         results = pool.map(impl_run, work, chunksize=8)
 
     # build case files: one bool per (copy, shape, s, e)
     cases = []   # (shape, s, e, copy, ok, pieces)
-    for (sh, ranges), res in zip(work, results):
+    for (sh, ranges, *_), res in zip(work, results):
         for ci, per in enumerate(res):
             for (s, e), (ok, pieces) in zip(ranges, per):
                 cases.append((sh, s, e, ci, ok, pieces))
@@ -185,8 +206,32 @@ def run(ck: Check) -> None:
         "rule": f"every shape of order<=4 with numel<={maxn} and order 5 with dims<=2, every 0<=start<=end<=numel, both copies (exhaustive), plus random shapes up to numel 20000; non-trivial = distinct (shape,start,end) whose result has >=2 pieces",
         "exhaustive": True,
         "samples": [{"shape": list(c[0]), "start": c[1], "end": c[2], "copy": ["fsdp", "hsdp"][c[3]], "pieces": c[5]} for c in (cases[len(cases) // 3], cases[len(cases) // 2], cases[-1])],
-        "distribution": {"pieces_per_result": {str(k): v for k, v in sorted(hist.items())}, "orders": {str(o): sum(1 for sh, _ in work if len(sh) == o) for o in range(6)}, "random_cases": len(rnd), "nonflat_cases": nonflat},
+        "distribution": {"pieces_per_result": {str(k): v for k, v in sorted(hist.items())}, "orders": {str(o): sum(1 for w in work if len(w[0]) == o) for o in range(6)}, "random_cases": len(rnd), "nonflat_cases": nonflat},
         "disagreements": len(bad),
+        "quantifier_audit": {
+            "order 0 / 1 / 2 / 3 / 4 / 5 shapes (exhaustive + random + huge)": [sum(1 for w in work if len(w[0]) == o) for o in range(6)],
+            "shapes with size-1 dimensions": sum(1 for w in work if 1 in w[0]),
+            "shapes with a zero-sized dimension (empty range only)": len(zero_shapes),
+            "empty ranges (start = end)": sum(1 for c in cases if c[1] == c[2]),
+            "whole tensor (start = 0, end = numel)": sum(1 for c in cases if c[1] == 0 and c[2] == math.prod(c[0]) and c[2] > 0),
+            "range inside one row of the last dimension": sum(1 for c in cases if len(c[0]) >= 2 and c[0][-1] > 0 and c[2] > c[1] and c[1] // c[0][-1] == (c[2] - 1) // c[0][-1]),
+            "range starting AND ending mid-row": sum(1 for c in cases if len(c[0]) >= 2 and c[0][-1] > 0 and c[1] % c[0][-1] and c[2] % c[0][-1]),
+            "results with 1 / 2 / 3 / 4 / >= 5 pieces": [hist.get(1, 0), hist.get(2, 0), hist.get(3, 0), hist.get(4, 0), sum(v for k, v in hist.items() if k >= 5)],
+            "results with the maximum 2*order-1 pieces": sum(1 for c in cases if len(c[0]) >= 2 and len(c[5]) == 2 * len(c[0]) - 1),
+            "FSDP copy / HSDP copy": [sum(1 for c in cases if c[3] == 0), sum(1 for c in cases if c[3] == 1)],
+            "shard at a non-zero storage offset of a larger flat tensor": sum(1 for c in cases if c[1] > 0),
+            "huge shapes on the meta device (numel 2^31..2^44)": len(huge),
+            "huge shapes with numel >= 2^40": sum(1 for w in huge if math.prod(w[0]) >= 1 << 40),
+            "non-flat shards (must raise ValueError)": nonflat,
+            "random large shapes (numel <= 20000)": len(rnd),
+        },
+        "not_exercised": [
+            "storage identity of the views for the huge shapes (meta tensors have no storage; offsets, sizes, contiguity and device are compared)",
+            "non-contiguous 1-D shards (FSDP flat-parameter shards are contiguous; the property speaks of 'the given shard' as a flat range)",
+            "shard dtypes other than float32 (the routine only narrows and views)",
+            "start > end, negative start or end > numel (outside the quantifier 0 <= start <= end <= numel; the FSDP copy asserts)",
+            "CUDA tensors",
+        ],
     })
     ck.assumptions += ["torch.narrow/view/storage_offset behave as observed (views identified by storage pointer + offset + contiguity)"]
     ck.gen_equiv_verdict()
